@@ -824,7 +824,9 @@ class SVG:
 
                 # stroke may introduce multiple paths
                 assert len(paths) == 1  # oh ye of little faith
-                if paths[0].stroke != "none":
+                # (a zero stroke-width paints no stroke; the stroker would hand the
+                # outline itself back as if it were the stroke's area)
+                if paths[0].stroke != "none" and paths[0].stroke_width > 0:
                     paths = list(self._stroke(paths[0]))
 
                 # Any remaining stroke attributes don't do anything
